@@ -543,5 +543,56 @@ def run_forward_journalling(tier, log, seed):
                                         "overwritten value), or an unchanged one is journalled")
         except (mir.Unsupported, KeyError) as e:
             cx.unrecognised(name, f"not encodable: {e}")
-    return cx.finish("forward journalling: touch_account, inc_nonce, set_code_with_hash, sstore, tstore - one journal entry of the right kind with the pre-value, exactly when something changes; "
+    # ---- selfdestruct: what is journalled (the value moves themselves are decided under C08)
+    name, fn = "selfdestruct", body("selfdestruct")
+    if fn is None:
+        cx.unrecognised(name, "MIR body not found")
+    else:
+        def read_balance(m_, env):
+            return f"(+ (+ {env.get(m_.group(1), 0)} {BAL}) (* 1000000 {env['@zeroed']}))"
+
+        def was_destroyed(callee, args, env, b, flow):
+            t = flow.rvalue(args, env, b)
+            return f"(+ (+ {t if t is not None else 0} 5) (* 1000000 {env['@marks']}))"
+        rules = common + [(r"^JournaledState::load_account::<", "tag:4100"), (r" as Try>::branch$", "arg:0"), (r"from_residual$", "tag:14"), (r"as Deref>::deref$", "arg:0"),
+                          (r"^Account::is_selfdestructed$", was_destroyed), (r"^Account::mark_selfdestruct$", "record:mark:1;count:marks"),
+                          (r"^Account::is_created$", "record:crarg:1;free"), (r"^SpecId::enabled$", "free"), (r"^<Address as PartialEq>::ne$", "record:nearg:2;free"),
+                          (r"^<Uint<256, 4> as AddAssign>::add_assign$", "count:credits")]
+        consts = [entry_rule(), JR, (r"^copy \(\(\(\*(_\d+)\)\.0: (\w+::)*AccountInfo\)\.0: ruint::Uint<256, 4>\)$", read_balance),
+                  (r"^const ruint::Uint::<256, 4>::ZERO$", 12), (r"^Option::<JournalEntry>::None$", 90)]
+        srec = [(r"^\(\(\(\*(_\d+)\)\.0: (?:\w+::)*AccountInfo\)\.0: ruint::Uint<256, 4>\)$", "zeroed")]
+        fl = mirflow.Flow(fn, rules, consts, store_records=srec)
+        try:
+            decls, asserts, cells, order, returns, out = fl.encode()
+            cr, en, nes = _calls(fn, r"^Account::is_created$"), _calls(fn, r"^SpecId::enabled$"), _calls(fn, r"^<Address as PartialEq>::ne$")
+            cancun_ok = bool(re.search(r"_\d+ = (?:const )?SpecId::CANCUN;", fn.text))
+            if not (len(cr) == 1 and len(en) == 1 and 1 <= len(nes) <= 2 and cancun_ok):
+                cx.unrecognised(name, f"shape not recognised (is_created={len(cr)} SpecId::enabled={len(en)} address comparisons={len(nes)} CANCUN constant={cancun_ok})")
+            else:
+                C, CN = "r_" + cr[0][0], "r_" + en[0][0]
+                NEs = ["r_" + x[0] for x in nes]
+                extra = [f"(or (= {v} 0) (= {v} 1))" for v in [C, CN] + NEs] + [f"(= {NEs[0]} {x})" for x in NEs[1:]]
+                A = f"(+ {ACC} arg_2)"
+                BEFORE = f"(+ {A} {BAL})"          # the contract's balance, read before it is zeroed (zeroed count 0 at the time of the read)
+                WAS = f"(+ {A} 5)"                 # is_selfdestructed(contract), read before it is marked
+                per = []
+                for b in returns:
+                    g = lambda c: out(c, b)
+                    destroyed = (f"(and (= {g('@pushes')} 1) (= {g('@push.1')} {entry('AccountDestroyed', 'arg_2', 'arg_3', WAS, BEFORE)}) (= {g('@marks')} 1) (= {g('@mark.0')} {A}) "
+                                 f"(= {g('@zeroed')} 1) (= {g('@zeroed.base')} {A}) (= {g('@zeroed.val')} 12))")
+                    moved = (f"(and (= {g('@pushes')} 1) (= {g('@push.1')} {entry('BalanceTransfer', 'arg_2', 'arg_3', BEFORE)}) (= {g('@marks')} 0) "
+                             f"(= {g('@zeroed')} 1) (= {g('@zeroed.base')} {A}) (= {g('@zeroed.val')} 12))")
+                    nothing = f"(and (= {g('@pushes')} 0) (= {g('@marks')} 0) (= {g('@zeroed')} 0))"
+                    ok = (f"(and (= {g('@crarg.0')} {A}) (= {g('@credits')} {NEs[0]}) "
+                          f"(ite (or (= {C} 1) (= {CN} 0)) {destroyed} (ite (= {NEs[0]} 1) {moved} {nothing})))")
+                    per.append(f"(and on_{b} (not (= {g('_0')} 14)) (not {ok}))")
+                wit = [("destroyed", "(or " + " ".join(f"(and on_{b} (= {out('@marks', b)} 1))" for b in returns) + ")"),
+                       ("balance moved only", "(or " + " ".join(f"(and on_{b} (= {out('@marks', b)} 0) (= {out('@pushes', b)} 1))" for b in returns) + ")"),
+                       ("nothing", "(or " + " ".join(f"(and on_{b} (= {out('@pushes', b)} 0) (not (= {out('_0', b)} 14)))" for b in returns) + ")")]
+                cx.decide(name, decls, asserts, order, extra, "(or " + " ".join(per) + ")", wit, [C, CN] + NEs,
+                          "a self-destruct is not journalled as AccountDestroyed{address, target, was_destroyed: the flag before marking, had_balance: the balance before zeroing} (created in this "
+                          "transaction or before Cancun) / BalanceTransfer{from, to, balance} (Cancun, other target) / nothing (Cancun, own address), or the entry does not match what was changed")
+        except (mir.Unsupported, KeyError) as e:
+            cx.unrecognised(name, f"not encodable: {e}")
+    return cx.finish("forward journalling: touch_account, inc_nonce, set_code_with_hash, sstore, tstore, selfdestruct - one journal entry of the right kind with the pre-value, exactly when something changes; "
                      "transfer / create_account_checkpoint / selfdestruct value moves are under C08 / C21, load_account / sload warming under C34")
